@@ -4,7 +4,7 @@
   Proved here, for every class description and every history of decorations (no bound):
     * `slots_formula`, `mem_slotsOf`, `slots_nodup`, `own_slots_ignored` — what `__slots__` is;
     * `no_field_default_in_dict`, `special_not_in_dict`, `slots_key_in_dict`, `other_attrs_kept`,
-      `setstate_fix_iff` — what the rewritten class dict is;
+      `setstate_fix_iff`, `setstate_fix_respects_inherited`, `own_setstate_kept` — the rewritten class dict;
     * `creation_rule_satisfied` — the computed slots never violate the modelled rule of
       `type.__new__` (hypotheses: the class's best base is part of its MRO tail and is not
       variable-sized; no field is called `__setstate__`); both hypotheses are needed
@@ -248,41 +248,25 @@ theorem other_attrs_kept (c : Cls) (f : Flags) (k : Str) (hk : k ∈ c.dictKeys)
   · exact h2 h.2
   · exact h3 h.2
 
-/-- The pickle fix is installed exactly for frozen classes with neither state method of their own
-    (a state method whose name is also a field name has been popped with the field). -/
-theorem setstate_fix_iff (c : Cls) (f : Flags) (hg : kGetstate ∉ c.fields) (hs : kSetstate ∉ c.fields) :
-    setstateFixed c f = true ↔ c.frozen = true ∧ kGetstate ∉ c.dictKeys ∧ kSetstate ∉ c.dictKeys := by
-  have hfn : ∀ k, k ∉ c.fields → k ≠ kDict → k ≠ kWeakref → k ∉ fieldNames c f := by
-    intro k a b d hk
-    rw [mem_fieldNames] at hk
-    rcases hk with hk | hk | hk
-    · exact a hk.1
-    · exact b hk.2
-    · exact d hk.2
-  unfold setstateFixed stateFix
-  simp only [Bool.and_eq_true, Bool.not_eq_true', List.contains_eq_mem, decide_eq_false_iff_not, mem_preDict]
-  have e1 : kGetstate ≠ kSlots := by decide
-  have e2 : kSetstate ≠ kSlots := by decide
-  have g := hfn kGetstate hg (by decide) (by decide)
-  have s := hfn kSetstate hs (by decide) (by decide)
-  constructor
-  · rintro ⟨⟨a, b⟩, d⟩
-    refine ⟨a, ?_, ?_⟩
-    · intro hm; exact b ⟨Or.inl hm, g, by decide, by decide⟩
-    · intro hm; exact d ⟨Or.inl hm, s, by decide, by decide⟩
-  · rintro ⟨a, b, d⟩
-    refine ⟨⟨a, ?_⟩, ?_⟩
-    · rintro ⟨h | h, _⟩
-      · exact b h
-      · exact e1 h
-    · rintro ⟨h | h, _⟩
-      · exact d h
-      · exact e2 h
+/-- **setstate_fix_iff.** The pickle fix is installed exactly for frozen classes with no state method
+    declared anywhere along the MRO (the class's own dict or a base other than `object`). -/
+theorem setstate_fix_iff (c : Cls) (f : Flags) :
+    setstateFixed c f = true ↔
+      c.frozen = true ∧ kGetstate ∉ c.dictKeys ∧ kSetstate ∉ c.dictKeys ∧ c.baseUserState = false := by
+  simp [setstateFixed, stateFix, and_assoc]
 
-/-- The test of classes.py:125 looks at the class's own dict only: state methods defined by a base
-    play no role in the decision. -/
-theorem setstate_fix_ignores_inherited (c : Cls) (f : Flags) (b : Bool) :
-    setstateFixed { c with baseUserState := b } f = setstateFixed c f := rfl
+/-- State methods inherited from a base are respected: the fix is never put on top of them
+    (the repair of 900dc83; before it the test looked at the class's own dict only). -/
+theorem setstate_fix_respects_inherited (c : Cls) (f : Flags) (h : setstateFixed c f = true) :
+    c.baseUserState = false := ((setstate_fix_iff c f).mp h).2.2.2
+
+/-- A user-defined `__setstate__` of the class itself is kept (not replaced, not dropped). -/
+theorem own_setstate_kept (c : Cls) (f : Flags) (h : kSetstate ∈ c.dictKeys) (hf : kSetstate ∉ c.fields) :
+    kSetstate ∈ newDict c f ∧ setstateFixed c f = false := by
+  refine ⟨other_attrs_kept c f kSetstate h hf (by decide) (by decide), ?_⟩
+  cases hs : setstateFixed c f with
+  | false => rfl
+  | true => exact absurd h ((setstate_fix_iff c f).mp hs).2.2.1
 
 /-! ### CPython's creation rule -/
 
@@ -628,15 +612,9 @@ theorem field_named_setstate_conflicts :
   intro h
   exact h { exP with fields := [kSetstate] } {} kSetstate (by decide) (by decide)
 
-/-- **setstate_fix_overrides_inherited.** The statement one wants of the pickle fix,
-      `∀ c f, setstateFixed c f = true → c.baseUserState = false`
-    ("installed only when no state method is user-defined anywhere"), is false of the code as it stands:
-    a frozen child of a base that defines `__getstate__` / `__setstate__` gets `_slots_setstate` on top
-    of the inherited `__getstate__` (real code: unpickling / copying such an instance raises
-    AttributeError; replayed by the check as witness `slottedInheritedState`). -/
-theorem setstate_fix_overrides_inherited :
-    ¬ (∀ (c : Cls) (f : Flags), setstateFixed c f = true → c.baseUserState = false) := by
-  intro h
-  exact absurd (h { exQ with baseUserState := true } {} (by decide)) (by decide)
+/-- The rule the code had before 900dc83 — only the class's own (rewritten) dict is consulted — put the
+    fix on top of inherited state methods; under the current rule the same description gets none. -/
+example : (exQ.frozen && !exQ.dictKeys.contains kGetstate && !exQ.dictKeys.contains kSetstate) = true
+    ∧ setstateFixed { exQ with baseUserState := true } {} = false ∧ setstateFixed exQ {} = true := by decide
 
 end Typelib.C19
